@@ -1,4 +1,6 @@
 """C19 — Redis lock: one holder at a time, only the holder can release."""
+import os
+import random
 import subprocess
 import time
 
@@ -13,12 +15,53 @@ RULE = ("TLC explores the abstract lease lock (RedisLock.tla) over all sequences
         "seeded long random histories, rounds of simultaneous Acquire/Release from 2..8 goroutines (callStart/"
         "callEnd, TLC finds the linearisation) and rounds whose store commands are released one at a time by a seeded "
         "command-level scheduler (miniredis pre-command hook) with clock jumps and command failures in between are added; every recorded trace is validated by TLC against "
-        "RedisLock.tla. distinct = distinct operation histories executed (generated histories by content; random "
-        "and concurrent ones by seed and index).")
+        "RedisLock.tla. The whole legal range of SetExpire (0 .. 2^32-1 seconds, leases to 4.3e12 ms, beyond TLC's 32-bit "
+        "integers) is covered through RedisLockWide.tla = RedisLock.tla with times and seconds as two-limb numbers "
+        "(model-checked to have exactly the behaviours of RedisLock.tla, both directions, at bases where carries happen "
+        "constantly): TLC generates the transition cover for SetExpire values at the width boundaries of the lease "
+        "arithmetic (2^24/2^31/2^32 ms, 2^15/2^16/2^31/2^32 s; a seed-rotated subset in the quick tier), replayed on the "
+        "real code, and the random / concurrent / scheduler histories draw one SetExpire in six from that range; those "
+        "traces are validated against RedisLockWide.tla (Base 10^6). distinct = distinct operation histories executed "
+        "(generated histories by content; random and concurrent ones by seed and index).")
 
 FAM = "lock"
 PKG = "core/stores/redis"
-DRV = ["zz_verif_lock_test.go"]
+DRV = ["zz_verif_lock_test.go", "zz_verif_c19_wide_test.go"]
+
+# SetExpire values (seconds) at the width boundaries of seconds*1000+500: the lease crosses 2^24 ms (float32
+# mantissa), 2^31 ms, 2^32 ms; the seconds cross 2^15, 2^16, 2^31 - and, as k standing for 2^31 + k, 2^31 and 2^32-1
+# (the field is a uint32: 2^32-1 is the largest legal value).
+WIDE_LOW = [4294968, 2147484, 4294967, 65536, 2147483647, 16778, 4294966, 32768, 2147483, 65535, 16777, 32767]
+WIDE_HIGH = [2147483647, 0, 2147483646, 1]
+
+
+def wide_gen(run, tag, inst, low, high, maxops):
+    """Generation config for RedisLockWideMC at Base 10^6 with the given SetExpire values (written into the
+    scratch copy of the spec family; RedisLockWideGen.cfg in specs/lock is the same thing with fixed values)."""
+    d = run._spec_copy(FAM)
+    tmpl = open(os.path.join(d, "RedisLockWideGen.cfg")).read()
+    out = []
+    for ln in tmpl.splitlines():
+        k = ln.split("=")[0].strip()
+        if k == "Inst":
+            ln = "  Inst = {%s}" % ", ".join(str(i) for i in range(inst))
+        elif k == "SecsLow":
+            ln = "  SecsLow = {%s}" % ", ".join(str(v) for v in sorted(low))
+        elif k == "SecsHigh":
+            ln = "  SecsHigh = {%s}" % ", ".join(str(v) for v in sorted(high))
+        elif k == "MaxOps":
+            ln = "  MaxOps = %d" % maxops
+        out.append(ln)
+    name = "RedisLockWideGen-%s.cfg" % tag
+    with open(os.path.join(d, name), "w") as fh:
+        fh.write("\n".join(out) + "\n")
+    beh = run.generate(FAM, "RedisLockWideMC", name, workers=1)
+    run.notes.append("wide generation %s: %d instances, SetExpire in %s + 2^31+%s, <= %d operations: %d histories"
+                     % (tag, inst, sorted(low), sorted(high), maxops, len(beh)))
+    for b in beh:
+        run.distinct.add(("wide", inst, str(b)))
+    run.evaluations += len(beh)
+    return beh
 
 
 def check(run):
@@ -32,6 +75,8 @@ def check(run):
         "the store is closed/restarted only between calls",
         "obs events read the key and its ttl directly from miniredis (white-box: value == RedisLock.id); a value "
         "that is no instance's id is only compared for existence and ttl",
+        "the legal arguments of SetExpire(int) are 0 .. 2^32-1 (the field is a uint32; anything else is truncated by "
+        "the conversion and not a 'configured number of seconds'); int is 64 bits on the platform the check runs on",
     ]
     # ---- design level
     run.model_check(FAM, "RedisLockMC", "RedisLockMC.cfg", workers=4,
@@ -39,6 +84,9 @@ def check(run):
                          "AtMostOneHolder, BeliefSound, OwnerOnlyRelease, LateReleaseHarmless, NoSteal, LeaseLength")
     run.model_check(FAM, "LockImpl", "LockImplMC.cfg", workers=4,
                     note="key/ttl + Lua scripts + client steps, 3 goroutines on 2 instances: refines RedisLock")
+    run.model_check(FAM, "RedisLockWideMC", "RedisLockWideMC.cfg", workers=4,
+                    note="RedisLock in two-limb numbers (base 3, 2 instances, secs 0 and 4 = <<1,1>>), state relative to the "
+                         "clock + its low limb: every step is a step of RedisLock.tla (Refines), limb arithmetic lemmas")
     bugs = [("LockImplBugDel.cfg", "release script without the id comparison"),
             ("LockImplBugNoNX.cfg", "lock script sets the key without NX")]
     if thorough:
@@ -52,6 +100,21 @@ def check(run):
                         note="abstract lock, 4 instances, secs 0..3")
         run.model_check(FAM, "LockImpl", "LockImplMC3b.cfg", workers=8,
                         note="3 goroutines on 3 instances, refinement")
+        run.model_check(FAM, "RedisLockWideMC", "RedisLockWideMC7.cfg", workers=8,
+                        note="limbs, base 7, 3 instances, secs 0..2: refines RedisLock.tla")
+        run.model_check(FAM, "RedisLockWideMC", "RedisLockWideMC7b.cfg", workers=8,
+                        note="limbs, base 7, 2 instances, secs 0 and 8 = <<1,1>>: refines RedisLock.tla")
+        run.model_check(FAM, "RedisLockWideMC", "RedisLockWideMC16.cfg", workers=8,
+                        note="limbs, base 16, 2 instances, secs 0..1: refines RedisLock.tla")
+        run.model_check(FAM, "RedisLockWideMC", "RedisLockWideMC1000.cfg", workers=8,
+                        note="limbs, base 1000 (= ms per second: low limb = the milliseconds), 1 instance, secs 0..1: "
+                             "refines RedisLock.tla")
+        # (the converse direction is a statement about the two specifications alone - independent of the tree under
+        # test and of the seed - so it is checked in this tier only)
+        run.model_check(FAM, "RedisLockWideConv", "RedisLockWideConv.cfg", workers=4,
+                        note="converse: every step of RedisLock.tla is a step of RedisLockWide.tla (base 3, secs 0 and 4)")
+        run.model_check(FAM, "RedisLockWideConv", "RedisLockWideConv7.cfg", workers=8,
+                        note="converse, base 7, 2 instances, secs 0..2")
         apalache(run)
     # ---- spec -> code: one history per distinct transition (state, operation, answer) of the abstract lock
     gens = [("RedisLockGen.cfg", 3)]
@@ -66,18 +129,41 @@ def check(run):
                            env={"VERIF_LOCK_N": n, "VERIF_LOCK_CLOSED_EVERY": 40 if not thorough else 60,
                                 "VERIF_LOCK_PROBE": 1 if thorough else 0})
         run.validate(FAM, "RedisLockTrace", "RedisLockTrace.cfg", tr, label="replay-n%d" % n, heap="2g")
+    # ---- spec -> code over the whole range of SetExpire: transition cover of the limb specification with
+    # SetExpire values at the width boundaries of the lease arithmetic (every run has one value >= 2^31 seconds and
+    # one below; the quick tier rotates through the boundaries with the seed, the thorough tier takes them all)
+    k = run.seed - 1
+    if not thorough:
+        wide = [("q", 2, [WIDE_LOW[k % len(WIDE_LOW)]], [WIDE_HIGH[k % len(WIDE_HIGH)]], 5)]
+    else:
+        rnd = random.Random(run.seed * 7919 + 19)
+        wide = [("t%d" % g, 2, [WIDE_LOW[(k + 2 * g) % 12], WIDE_LOW[(k + 2 * g + 1) % 12]], [WIDE_HIGH[(k + g) % 4]], 6)
+                for g in range(6)]
+        wide.append(("t3i", 3, [WIDE_LOW[k % 12]], [WIDE_HIGH[(k + 1) % 4]], 6))
+        wide.append(("trnd", 2, [rnd.randrange(1 << 31), rnd.randrange(4294967, 1 << 31)], [rnd.randrange(1 << 31)], 6))
+    wide_beh = {}
+    for tag, inst, low, high, maxops in wide:
+        wide_beh[tag] = (inst, wide_gen(run, tag, inst, low, high, maxops))
+    if thorough:
+        for tag, (inst, beh) in wide_beh.items():
+            tr = run.go_driver(PKG, DRV, "TestVerifLockWideReplay$", inp=beh,
+                               env={"VERIF_LOCK_WIDE_N": inst, "VERIF_LOCK_PROBE": 1})
+            run.validate(FAM, "RedisLockWideTrace", "RedisLockWideTrace.cfg", tr, label="wide-replay-" + tag, heap="2g")
     # ---- code -> spec: long random histories, free-running concurrent rounds, command-level scheduler
-    drivers = [("TestVerifLockRandom$", "random", None),
-               ("TestVerifLockConcurrent$", "concurrent", "2,8"),
-               ("TestVerifLockSched$", "sched", None)]
-    if not thorough:  # one compile, one JVM start
-        drivers = [("TestVerifLock(Random|Concurrent|Sched)$", "random+concurrent+sched", "4")]
-    for test, label, cpu in drivers:
-        tr = run.go_driver(PKG, DRV, test, cpu=cpu)
+    # (SetExpire drawn from the whole range: limb format, validated against RedisLockWide.tla)
+    drivers = [("TestVerifLockRandom$", "random", None, None),
+               ("TestVerifLockConcurrent$", "concurrent", "2,8", None),
+               ("TestVerifLockSched$", "sched", None, None)]
+    if not thorough:  # one compile, one JVM start (the wide replay rides along)
+        drivers = [("TestVerifLock(WideReplay|Random|Concurrent|Sched)$", "wide-replay+random+concurrent+sched", "4",
+                    wide_beh["q"][1])]
+    for test, label, cpu, inp in drivers:
+        tr = run.go_driver(PKG, DRV, test, cpu=cpu, inp=inp, env={"VERIF_LOCK_WIDE_N": 2, "VERIF_LOCK_PROBE": 1})
         n0 = run.traces
-        run.validate(FAM, "RedisLockTrace", "RedisLockTrace.cfg", tr, label=label, heap="2g")
-        run.evaluations += run.traces - n0
-        for i in range(run.traces - n0):
+        run.validate(FAM, "RedisLockWideTrace", "RedisLockWideTrace.cfg", tr, label=label, heap="2g")
+        extra = run.traces - n0 - (len(inp) if inp else 0)
+        run.evaluations += max(extra, 0)
+        for i in range(max(extra, 0)):
             run.distinct.add((label, run.seed, i))
 
 
@@ -110,14 +196,25 @@ LEVEL_TEXT = ("Exhaustive TLC model checking of the abstract lease lock (all ope
               "instances, state taken relative to the clock) and of the implementation-shaped model of key/ttl + Lua "
               "scripts + client steps refining it, plus conformance: every TLC-reachable (state, operation) of the "
               "abstract lock replayed on the real RedisLock over miniredis, long random histories and concurrent "
-              "rounds, each trace validated by TLC against RedisLock.tla.")
+              "rounds, each trace validated by TLC against RedisLock.tla; the whole range of SetExpire (to 2^32-1 seconds) "
+              "through RedisLockWide.tla, the same specification in two-limb numbers, model-checked equivalent to it.")
 LEVEL_NOTE = ("Trusted: TLC/SANY, the Go toolchain, miniredis (script atomicity, ttl by FastForward), the emitter's "
               "ordering. Real Redis, cluster mode, clock skew between clients and real network partitions (reply lost "
               "after the script ran) are modelled in the spec (error-with-effect) but not produced on the real code.")
-TECHNIQUE = ("TLA+ spec (RedisLock / LockImpl), TLC refinement check, TLC-generated transition-cover replay + TLC trace "
-             "validation with inferred linearisation points")
+TECHNIQUE = ("TLA+ spec (RedisLock / LockImpl / RedisLockWide), TLC refinement checks, TLC-generated transition-cover replay "
+             "+ TLC trace validation with inferred linearisation points")
 DESIGN_REF = "DESIGN.md Part B C19"
 
 
 def replay(run, path):
-    run.replay(FAM, "RedisLockTrace", "RedisLockTrace.cfg", path)
+    """A replay file names the trace module it was rejected by in its header."""
+    mod = "RedisLockTrace"
+    try:
+        import json
+        with open(path) as fh:
+            hdr = json.loads(fh.readline())
+        if hdr.get("e") == "header" and "RedisLockWideTrace" in hdr.get("spec", ""):
+            mod = "RedisLockWideTrace"
+    except Exception:  # noqa
+        pass
+    run.replay(FAM, mod, mod + ".cfg", path)
